@@ -238,11 +238,38 @@ func checkC19(c *Ctx) {
 				}
 			}
 		})
+		// the report may be published by a helper that is handed it (setHotKeys(res.Data()))
+		var pubSrc ssa.Value
+		if pub != nil {
+			pubSrc = pub.Val
+		} else {
+			eachInstr(col, func(_ *ssa.BasicBlock, _ int, in ssa.Instruction) {
+				call, ok := in.(*ssa.Call)
+				if !ok || pub != nil {
+					return
+				}
+				g := calleeFn(call.Common())
+				if g == nil || !isModFn(g) || g.Blocks == nil {
+					return
+				}
+				eachInstr(g, func(_ *ssa.BasicBlock, _ int, x ssa.Instruction) {
+					if st, ok := x.(*ssa.Store); ok {
+						if f, _ := fieldAddr(st.Addr); f == keys {
+							if prm, ok := st.Val.(*ssa.Parameter); ok {
+								if idx := paramIndex(g, prm); idx >= 0 && idx < len(call.Call.Args) {
+									pub, pubSrc = st, call.Call.Args[idx]
+								}
+							}
+						}
+					}
+				})
+			})
+		}
 		if pub == nil {
 			c.Fail("R3", "collect publishes", col.Pos(), "collect does not publish a report")
 		} else {
 			// the published value is container.Data(); look at the container
-			src := pub.Val
+			src := pubSrc
 			if cl, ok := src.(*ssa.Call); ok && len(cl.Call.Args) >= 1 {
 				if g := calleeFn(cl.Common()); g != nil && g.Signature.Recv() != nil && modType(g.Signature.Recv().Type(), hkPkg, "sortedHotKeys") {
 					src = cl.Call.Args[0]
